@@ -90,10 +90,11 @@ def sanitize_index(ind):
         return index_array
     elif np.issubdtype(index_array.dtype, np.floating):
         int_index = index_array.astype(np.intp)
-        if np.allclose(index_array, int_index):
+        # absolute tolerance only: a relative one accepts 100000.4 as 100000
+        if np.allclose(index_array, int_index, rtol=0):
             return int_index
         else:
-            check_int = np.isclose(index_array, int_index)
+            check_int = np.isclose(index_array, int_index, rtol=0)
             first_err = index_array.ravel()[np.flatnonzero(~check_int)[0]]
             raise IndexError(f"Bad index.  Must be integer-like: {first_err}")
     else:
